@@ -201,6 +201,7 @@ func c11ReRun(in c11Re) (V, Verdict) {
 	}
 	var hist []rec
 	var failure *Verdict
+	gensUnknown := false
 	// one CreateOffer / CreateAnswer with its interference; gens < 0: take it from the probe
 	call := func(op c11ReOp, calibrate bool) (webrtc.SessionDescription, bool) {
 		env.queue, env.sinceArm, env.probeCalls = append([]c11Interf{}, op.Interf...), 0, 0
@@ -224,9 +225,17 @@ func c11ReRun(in c11Re) (V, Verdict) {
 				env.perGen = env.probeCalls
 			}
 			if env.perGen <= 0 || env.probeCalls%env.perGen != 0 || env.probeCalls == 0 {
-				panic(fmt.Sprintf("harness: probe saw %d accessor calls, %d per generation", env.probeCalls, env.perGen))
+				// the probe cannot tell how many generations this call took (an interference changed how
+				// often the probe's own accessors are consulted): the o= lines are still judged by the
+				// direct oracle, but the history is not handed to the model
+				gensUnknown = true
+				r.gens = 1
+				if env.perGen > 0 && env.probeCalls > env.perGen {
+					r.gens = (env.probeCalls + env.perGen - 1) / env.perGen
+				}
+			} else {
+				r.gens = env.probeCalls / env.perGen
 			}
-			r.gens = env.probeCalls / env.perGen
 		}
 		switch {
 		case e == nil:
@@ -317,7 +326,11 @@ func c11ReRun(in c11Re) (V, Verdict) {
 			}
 		}
 	}
-	c11ReCoq.Store(fmt.Sprintf("%+v", in), fmt.Sprintf("((%d, %d), %s)", hist[0].sid, hist[0].ver, CoqList(retries)))
+	if gensUnknown {
+		c11ReCoq.Delete(fmt.Sprintf("%+v", in))
+	} else {
+		c11ReCoq.Store(fmt.Sprintf("%+v", in), fmt.Sprintf("((%d, %d), %s)", hist[0].sid, hist[0].ver, CoqList(retries)))
+	}
 	if verdict.Sig != "" {
 		return obs, verdict
 	}
